@@ -168,6 +168,21 @@ def generate(rng, tier):
             lines = ["#full " + b.hex(), "ctor plain", "load %s %d %s" % (kind, lazy, hx(b[:cut])), "obsall", "queryall"]
             cases.append(Case("p%d_%d" % (n_img, cut), lines, {"full": b, "im": im, "cut": cut, "img": n_img}))
             k += 1
+    # cuts inside every field of every section header entry of an image whose sections are longer than 255 bytes
+    # (a size field cut in the middle still decodes to a plausible, smaller size), with a segment, eager and lazy
+    for cfg in (CFGS if tier == "thorough" else [CFGS[rng.randrange(4)]]):
+        S = lambda **k: dict(dict(flags=0, addr=0, size=0, link=0, info=0, addralign=1, entsize=0), **k)
+        secs = [S(sname=b".text", type=1, flags=6, data=bytes(rng.getrandbits(8) for _ in range(0x123)), addralign=16),
+                S(sname=b".data", type=1, flags=3, data=bytes(rng.getrandbits(8) for _ in range(0x234)), addralign=4),
+                S(sname=b".note", type=7, flags=0, data=elfimg.note_bytes(cfg[1], 1, b"GNU", b"\1\2\3\4"), addralign=4)]
+        im, b = elfimg.build(cfg[0], cfg[1], secs, [dict(type=1, flags=5, align=16, cover=[1, 2])], rng, addr_from_offset=0x10000)
+        images.append((im, b))
+        n_img = len(images) - 1
+        shoff, es, nsec = im.hdr["shoff"], im.hdr["shentsize"], len(im.sections)
+        for cut in range(shoff, min(len(b), shoff + es * nsec) + 1):
+            for lazy in (0, 1):
+                lines = ["#full " + b.hex(), "ctor plain", "load %s %d %s" % ("file" if lazy else "str", lazy, hx(b[:cut])), "obsall", "queryall"]
+                cases.append(Case("p%d_%d_%d" % (n_img, cut, lazy), lines, {"full": b, "im": im, "cut": cut, "img": n_img}))
     # the complete files' own table read-outs, for comparison (one extra case per image)
     for n_img, (im, b) in enumerate(images):
         lines = ["#full " + b.hex(), "ctor plain", "load str 0 " + hx(b), "obsall", "queryall"]
